@@ -1,9 +1,280 @@
 import BronVerif.Drive.Common
-/-! Driver handlers for C16. -/
-namespace BronVerif.Drive.C16
-open BronVerif BronVerif.Drive
+import BronVerif.Model.Paillier
+import BronVerif.Model.ElGamal
+import BronVerif.Model.Curves
+/-!
+Driver handlers for C16 (Paillier / ElGamal: decryption and exact homomorphisms).
 
-def handle (op : String) (_args : List String) (_rhs : String) : Verdict :=
-  .unsupported ("C16 op " ++ op)
+Every verdict is decided by the textbook model of `Model/Paillier.lean` (`enc N m r =
+(1+N)^m · r^N mod N²` on GMP naturals, λ-based decryption, the group/plaintext/nonce algebra) and
+of `Model/ElGamal.lean` instantiated with the curve arithmetic of `Model/Curves.lean`.
+
+`spec` is used where the property fixes the value (textbook ciphertext, decrypted plaintext,
+homomorphic images, membership decisions); `mirror` where the model only follows an implementation
+choice (reduction of over-long constructor inputs, error class names, order of validation).
+-/
+namespace BronVerif.Drive.C16
+open BronVerif BronVerif.Drive BronVerif.Paillier
+
+def okNat (n : Nat) : String := "ok:" ++ natToHex n
+def okList (xs : List Nat) : String := "ok:" ++ joinComma (xs.map natToHex)
+
+/-- accept/reject disagreements violate the property; differing error classes only break the mirror -/
+def specClass (key model rhs : String) : Verdict :=
+  if model == rhs then .ok
+  else if model.startsWith "ok" != rhs.startsWith "ok" then
+    .bad key ("expected=" ++ model ++ " observed=" ++ rhs)
+  else if model.startsWith "ok" then .bad key ("expected=" ++ model ++ " observed=" ++ rhs)
+  else .diff model
+
+/-- the precondition of a homomorphic step: `(m, r, c)` is a valid encryption triple of the model -/
+def validTriple (N m r c : Nat) : Bool := isPt N m && isNonce N r && enc N m r == c
+
+/-- one homomorphic step on a tracked triple; returns the model's `(c', m', r')` -/
+def homStep (N : Nat) (kind : String) (m r c : Nat) (operands : List String) : Option (Nat × Nat × Nat) :=
+  match kind, operands with
+  | "op", [ms, rs, cs] => do
+    let ms ← parseNatList? ms
+    let rs ← parseNatList? rs
+    let cs ← parseNatList? cs
+    if ms.length ≠ rs.length ∨ ms.length ≠ cs.length ∨ ms.isEmpty then none
+    if !(List.zip ms (List.zip rs cs)).all (fun (m, r, c) => validTriple N m r c) then none
+    some (ctProd N (c :: cs), ptSum N (m :: ms), nonceProd N (r :: rs))
+  | "inv", [] => some (ctInv N c, ptNeg N m, nonceInv N r)
+  | "scal", [ks] => do
+    let k ← hexToInt? ks
+    some (ctScalar N c k, ptScalar N m k, nonceScalar N r k)
+  | "shift", [ds] => do
+    let d ← hexToNat? ds
+    if !isPt N d then none
+    some (shift N c d, ptAdd N m d, r)
+  | "rerand", [ss] => do
+    let s ← hexToNat? ss
+    if !isNonce N s then none
+    some (rerand N c s, m, nonceMul N r s)
+  | _, _ => none
+
+/-- structural key checks decidable without a primality certificate; `none` = well-formed -/
+def keyDefect (flavour : String) (bits p q : Nat) : Option String :=
+  let N := p * q
+  if p == q then some "p=q"
+  else if bitLen p != bitLen q then some "lengths-differ"
+  else if bitLen N != bits then some "modulus-length"
+  else if !probablyPrime p || !probablyPrime q then some "composite-factor"
+  else if Nat.gcd N ((p - 1) * (q - 1)) != 1 then some "gcd(N,phi)!=1"
+  else if flavour == "blum" && (p % 4 != 3 || q % 4 != 3) then some "not-blum"
+  else if flavour == "safe" && (!probablyPrime ((p - 1) / 2) || !probablyPrime ((q - 1) / 2)) then some "not-safe"
+  else none
+
+/-- mirror of `znstar.NewPaillierGroup` + `newSecretKey` validation order -/
+def newKeyModel (floor p q : Nat) : String :=
+  if bitLen p != bitLen q then "err:value"
+  else if !probablyPrime p || !probablyPrime q then "err:value"
+  else if p == q || p % 2 == 0 || q % 2 == 0 then "err:zfailed"
+  else if bitLen (p * q) < floor then "err:failed"
+  else okNat (p * q)
+
+/-! ### ElGamal over the model curves -/
+section elgamal
+open BronVerif.Curves
+
+def egOps (C : Params) : ElGamal.Ops Pt :=
+  { mul := add C, inv := neg C, pow := fun P k => smul C k P }
+
+def renderPair (C : Params) (c : Pt × Pt) : String := render C c.1 ++ "," ++ render C c.2
+
+def egHom (C : Params) (a : Nat) (path kind : String) (M : Pt) (r : Nat) (c : Pt × Pt)
+    (operands : List String) : Option ((Pt × Pt) × Pt × Nat) :=
+  let o := egOps C
+  let g := gen C
+  let h := ElGamal.pub o g a
+  match kind, operands with
+  | "op", [m2s, r2s, c2as, c2bs] => do
+    let M2 ← parse? C m2s
+    let r2 ← hexToNat? r2s
+    let c2a ← parse? C c2as
+    let c2b ← parse? C c2bs
+    if ElGamal.enc o g h M2 r2 != (c2a, c2b) then none
+    some (ElGamal.ctOp o c (c2a, c2b), add C M M2, (r + r2) % C.n)
+  | "inv", [] => some (ElGamal.ctInv o c, neg C M, (C.n - r % C.n) % C.n)
+  | "scal", [ks] => do
+    let k ← hexToNat? ks
+    some (ElGamal.ctScalar o c k, smul C k M, r * k % C.n)
+  | "shift", [ds] => do
+    let D ← parse? C ds
+    some (ElGamal.shift o c D, add C M D, r)
+  | "rerand", [ss] => do
+    let s ← hexToNat? ss
+    let c' := if path == "sk" then ElGamal.rerandSk o g C.n a c s else ElGamal.rerand o g h c s
+    some (c', M, (r + s) % C.n)
+  | _, _ => none
+
+def handleElGamal (op : String) (args : List String) (rhs : String) : Verdict :=
+  match op, args with
+  | "eg-key", [cn, as] =>
+    match byName? cn, hexToNat? as with
+    | some C, some a =>
+      let model := if a % C.n == 0 || a % C.n == 1 then "err:failed"
+        else "ok:" ++ render C (ElGamal.pub (egOps C) (gen C) a)
+      specClass "elgamal-key" model rhs
+    | _, _ => .unsupported "eg-key args"
+  | "eg-enc", [path, cn, as, ms, rs] =>
+    match byName? cn, hexToNat? as, hexToNat? rs with
+    | some C, some a, some r =>
+      match parse? C ms with
+      | none => .unsupported "eg-enc point"
+      | some M =>
+        if path != "pk" && path != "sk" then .unsupported "eg-enc path" else
+        if !onCurve C M then .unsupported "eg-enc plaintext not on curve" else
+        let o := egOps C
+        let c := ElGamal.enc o (gen C) (ElGamal.pub o (gen C) a) M r
+        spec "elgamal-enc" ("ok:" ++ renderPair C c) rhs
+    | _, _, _ => .unsupported "eg-enc args"
+  | "eg-dec", [cn, as, c1s, c2s] =>
+    match byName? cn, hexToNat? as with
+    | some C, some a =>
+      match parse? C c1s, parse? C c2s with
+      | some c1, some c2 => spec "elgamal-dec" ("ok:" ++ render C (ElGamal.dec (egOps C) a (c1, c2))) rhs
+      | _, _ => .unsupported "eg-dec points"
+    | _, _ => .unsupported "eg-dec args"
+  | "eg-hom", path :: cn :: as :: kind :: ms :: rs :: c1s :: c2s :: operands =>
+    match byName? cn, hexToNat? as, hexToNat? rs with
+    | some C, some a, some r =>
+      match parse? C ms, parse? C c1s, parse? C c2s with
+      | some M, some c1, some c2 =>
+        let o := egOps C
+        let h := ElGamal.pub o (gen C) a
+        if ElGamal.enc o (gen C) h M r != (c1, c2) then .unsupported "eg-hom precondition" else
+        match egHom C a path kind M r (c1, c2) operands with
+        | none => .unsupported ("eg-hom operands " ++ kind)
+        | some (c', M', r') =>
+          -- the homomorphism itself, evaluated on the model: the image is the encryption of (M', r')
+          if ElGamal.enc o (gen C) h M' r' != c' then
+            .unsupported ("eg-hom model homomorphism " ++ kind)
+          else if ElGamal.dec o a c' != M' then .unsupported ("eg-hom model dec " ++ kind)
+          else spec ("elgamal-hom-" ++ kind)
+            ("ok:" ++ renderPair C c' ++ "," ++ render C M' ++ "," ++ natToHex r') rhs
+      | _, _, _ => .unsupported "eg-hom points"
+    | _, _, _ => .unsupported "eg-hom args"
+  | _, _ => .unsupported ("C16 op " ++ op)
+
+end elgamal
+
+def handle (op : String) (args : List String) (rhs : String) : Verdict :=
+  if op.startsWith "eg-" then handleElGamal op args rhs else
+  match op, args with
+  -- generated key material: flavour predicates and gcd(N, φ(N)) = 1
+  | "key", [flavour, bitss, ps, qs] =>
+    match bitss.toNat?, hexToNat? ps, hexToNat? qs with
+    | some bits, some p, some q =>
+      match keyDefect flavour bits p q with
+      | some why => .bad "keygen" (flavour ++ " key: " ++ why)
+      | none => spec "keygen-modulus" (okNat (p * q)) rhs
+    | _, _, _ => .unsupported "key args"
+  -- constructor validation: malformed factors and the key-size floor
+  | "newkey", [floors, ps, qs] =>
+    match floors.toNat?, hexToNat? ps, hexToNat? qs with
+    | some fl, some p, some q => specClass "newkey" (newKeyModel fl p q) rhs
+    | _, _, _ => .unsupported "newkey args"
+  | "newpk", [floors, ns] =>
+    match floors.toNat?, hexToNat? ns with
+    | some fl, some N => specClass "newpk" (if bitLen N < fl then "err:failed" else "ok") rhs
+    | _, _ => .unsupported "newpk args"
+  -- value constructors
+  | "newpt", [ns, vs] =>
+    match hexToNat? ns, hexToNat? vs with
+    | some N, some v => specClass "plaintext-range" (if v < N then okNat v else "err:range") rhs
+    | _, _ => .unsupported "newpt args"
+  | "newnonce", [ns, vs] =>
+    match hexToNat? ns, hexToNat? vs with
+    | some N, some v =>
+      -- reduction of an over-long input is an implementation choice; unit-ness is the property
+      if Nat.gcd (v % N) N != 1 then specClass "nonce-unit" "err:value" rhs
+      else if v < N then spec "nonce-unit" (okNat v) rhs else mirror (okNat (v % N)) rhs
+    | _, _ => .unsupported "newnonce args"
+  | "newct", [ns, vs] =>
+    match hexToNat? ns, hexToNat? vs with
+    | some N, some v =>
+      if Nat.gcd (v % (N * N)) N != 1 then specClass "ciphertext-unit" "err:value" rhs
+      else if v < N * N then spec "ciphertext-unit" (okNat v) rhs else mirror (okNat (v % (N * N))) rhs
+    | _, _ => .unsupported "newct args"
+  | "sym", [ns, xs] =>
+    match hexToNat? ns, hexToInt? xs with
+    | some N, some x =>
+      specClass "symmetric-range" (if inSymRange N x then okNat (fromSym N x) else "err:range") rhs
+    | _, _ => .unsupported "sym args"
+  | "norm", [ns, ms] =>
+    match hexToNat? ns, hexToNat? ms with
+    | some N, some m =>
+      if !isPt N m then .unsupported "norm range" else
+      spec "symmetric-normalise" ("ok:" ++ intToHex (toSym N m)) rhs
+    | _, _ => .unsupported "norm args"
+  -- encryption: textbook ciphertext, both key paths
+  | "enc", [path, ns, ms, rs] =>
+    match hexToNat? ns, hexToNat? ms, hexToNat? rs with
+    | some N, some m, some r =>
+      if path != "pk" && path != "sk" then .unsupported "enc path" else
+      if !isPt N m then specClass "plaintext-range" "err:range" rhs
+      else if Nat.gcd (r % N) N != 1 then specClass "nonce-unit" "err:value" rhs
+      else if r < N then spec ("enc-textbook-" ++ path) (okNat (enc N m r)) rhs
+      else mirror (okNat (enc N m (r % N))) rhs
+    | _, _, _ => .unsupported "enc args"
+  | "rep", [path, ns, ms] =>
+    match hexToNat? ns, hexToNat? ms with
+    | some N, some m =>
+      if !isPt N m then .unsupported "rep range" else spec ("representative-" ++ path) (okNat (rep N m)) rhs
+    | _, _ => .unsupported "rep args"
+  | "noise", [path, ns, rs] =>
+    match hexToNat? ns, hexToNat? rs with
+    | some N, some r =>
+      if !isNonce N r then .unsupported "noise nonce" else spec ("identity-noise-" ++ path) (okNat (noise N r)) rhs
+    | _, _ => .unsupported "noise args"
+  -- decryption (ciphertext carries the modulus of its own group)
+  | "dec", [ps, qs, ncs, cs] =>
+    match hexToNat? ps, hexToNat? qs, hexToNat? ncs, hexToNat? cs with
+    | some p, some q, some Nc, some c =>
+      if Nc != p * q then specClass "decrypt-membership" "err:membership" rhs
+      else if !isCt (p * q) c then .unsupported "dec: ciphertext not a unit"
+      else
+        let m := dec p q c
+        -- the model's own CRT/Fermat-quotient path must agree with the textbook one
+        if decCRT p q c != m then .unsupported "model: decCRT != dec" else
+        spec "decrypt" (okNat m) rhs
+    | _, _, _, _ => .unsupported "dec args"
+  | "open", [ps, qs, ncs, cs] =>
+    match hexToNat? ps, hexToNat? qs, hexToNat? ncs, hexToNat? cs with
+    | some p, some q, some Nc, some c =>
+      let N := p * q
+      if Nc != N then specClass "decrypt-membership" "err:membership" rhs
+      else if !isCt N c then .unsupported "open: ciphertext not a unit"
+      else
+        let m := dec p q c
+        let r := recoverNonce p q c m
+        -- model-side sanity: the recovered pair re-encrypts to c (else the model is broken)
+        if enc N m r != c then .unsupported "model: recovered pair does not re-encrypt" else
+        if rhs.startsWith "ok:" then
+          match parseNatList? (rhs.drop 3).toString with
+          | some [m', r'] =>
+            -- property oracle on the implementation's own answer: re-encryption gives c
+            if !(isPt N m' && isNonce N r' && enc N m' r' == c) then
+              .bad "open-reencrypt" ("Enc(m',r') != c; expected=" ++ okList [m, r] ++ " observed=" ++ rhs)
+            else spec "open" (okList [m, r]) rhs
+          | _ => .unsupported "open rhs"
+        else spec "open" (okList [m, r]) rhs
+    | _, _, _, _ => .unsupported "open args"
+  -- homomorphic step on a tracked (m, r, c)
+  | "hom", path :: ns :: kind :: ms :: rs :: cs :: operands =>
+    match hexToNat? ns, hexToNat? ms, hexToNat? rs, hexToNat? cs with
+    | some N, some m, some r, some c =>
+      if path != "pk" && path != "sk" then .unsupported "hom path" else
+      if !validTriple N m r c then .unsupported "hom precondition" else
+      match homStep N kind m r c operands with
+      | none => .unsupported ("hom operands " ++ kind)
+      | some (c', m', r') =>
+        -- the homomorphism itself, evaluated on the model: the image encrypts (m', r')
+        if enc N m' r' != c' then .unsupported ("hom model homomorphism " ++ kind)
+        else spec ("hom-" ++ kind ++ "-" ++ path) (okList [c', m', r']) rhs
+    | _, _, _, _ => .unsupported "hom args"
+  | _, _ => .unsupported ("C16 op " ++ op)
 
 end BronVerif.Drive.C16
